@@ -177,7 +177,26 @@ def _assd(ref, pred, label=None):
 
     if label is None:
         return float(H.lib_call(Metric.ASSD, ref, pred))
-    return float(H.lib_call(Metric.ASSD, ref, pred, label, label))
+    got = float(H.lib_call(Metric.ASSD, ref, pred, label, label))
+    # the instance-level function behind Metric.ASSD takes the two labels itself (Metric.__call__ pre-selects)
+    import panoptica.metrics as pm
+
+    direct = float(H.lib_call(pm._compute_instance_average_symmetric_surface_distance, ref, pred, label, label))
+    if not H.same_value(direct, got, 1e-12):
+        raise Violation(f"_compute_instance_average_symmetric_surface_distance(ref, pred, {label}, {label})={direct!r} but Metric.ASSD(ref, pred, {label}, {label})={got!r}")
+    # different labels on the two sides, plus a distractor instance carrying the other side's label
+    l2 = label + 1
+    pred2 = np.where(pred == label, l2, 0).astype(pred.dtype)
+    ref2 = ref.copy()
+    free = np.argwhere((ref2 == 0) & (pred2 == 0))
+    if len(free):
+        ref2[tuple(free[0])] = l2
+        pred2[tuple(free[-1])] = label
+    direct2 = float(H.lib_call(pm._compute_instance_average_symmetric_surface_distance, ref2, pred2, label, l2))
+    via2 = float(H.lib_call(Metric.ASSD, ref2, pred2, label, l2))
+    if not (H.same_value(direct2, got, 1e-12) and H.same_value(via2, got, 1e-12)):
+        raise Violation(f"ASSD of reference label {label} and prediction label {l2} (with distractors carrying the opposite labels): instance-level function {direct2!r}, Metric.ASSD {via2!r}, same masks alone {got!r}")
+    return got
 
 
 def check(case, stats):
